@@ -2,6 +2,7 @@ use crate::proto::Driver;
 use crate::{run_op, OpResult, RunCfg};
 
 pub mod authurl;
+pub mod cfg;
 pub mod common;
 pub mod dbg;
 pub mod pkce;
@@ -32,6 +33,7 @@ pub fn dispatch(op: &str, cfg: &RunCfg, d: &mut Driver) -> Option<OpResult> {
         "poll" => run_op::<poll::PollCase>(cfg, d),
         "tok" => run_op::<tok::TokCase>(cfg, d),
         "err" => run_op::<err::ErrCase>(cfg, d),
+        "cfg" => run_op::<cfg::CfgCase>(cfg, d),
         _ => return None,
     })
 }
